@@ -102,20 +102,24 @@ TYPE_REJECTED = ["char", "short", "long", "float", "double", "signed", "_Bool", 
 _TREES = {}
 
 
+TYPE_CONTEXTS = {"declaration": "{ %s x; }", "cast": "{ y = (%s) x; }"}
+
+
 def type_trees(repo):
-    """the children lists the type callbacks receive, taken from the real grammar (lark) for `{ <type> x; }`"""
+    """the children lists the type callbacks receive, taken from the real grammar (lark) for `{ <type> x; }` and `{ y = (<type>) x; }`"""
     if not _TREES:
         from lark import Lark
         with open(os.path.join(repo, "Resources/Hexagon/grammar.lark")) as f:
             L = Lark(f.read(), start="fbody", parser="earley")
-        for sp in list(TYPE_TABLE) + TYPE_REJECTED:
-            try:
-                tree = L.parse("{ " + sp + " x; }")
-            except Exception as e:     # not in the grammar at all: rejected by the parser
-                _TREES[sp] = ("parse-error", type(e).__name__)
-                continue
-            decl = [t for t in tree.iter_subtrees() if t.data in ("declaration_specifiers", "type_specifier", "specifier_qualifier_list")]
-            _TREES[sp] = ("ok", tree, [t.data for t in decl])
+        for ctx, pat in TYPE_CONTEXTS.items():
+            for sp in list(TYPE_TABLE) + TYPE_REJECTED:
+                try:
+                    tree = L.parse(pat % sp)
+                except Exception as e:     # not in the grammar at all: rejected by the parser
+                    _TREES[(ctx, sp)] = ("parse-error", type(e).__name__)
+                    continue
+                decl = [t for t in tree.iter_subtrees() if t.data in ("declaration_specifiers", "type_specifier", "specifier_qualifier_list")]
+                _TREES[(ctx, sp)] = ("ok", tree, [t.data for t in decl])
     return _TREES
 
 
@@ -142,46 +146,59 @@ def gen_types(loader, check, replay_on=True):
             return it.call(tkit.method(it, t, node.data), [kids], {})
         return Tree(node.data, kids)
 
-    for sp in list(TYPE_TABLE) + TYPE_REJECTED:
-        ent = trees[sp]
+    for ctx, sp in [(c, s_) for c in TYPE_CONTEXTS for s_ in list(TYPE_TABLE) + TYPE_REJECTED]:
+        ent = trees[(ctx, sp)]
+        fam = f"{ctx}-type"
         check.instances_declared += 1
         if ent[0] == "parse-error":
             check.instances_generated += 1
-            check.ob("declaration-type#rejected", sp, [], sp in TYPE_REJECTED, detail=f"the grammar rejects the spelling ({ent[1]})")
+            check.ob(f"{fam}#rejected", sp, [], sp in TYPE_REJECTED, detail=f"the grammar rejects the spelling ({ent[1]})")
             continue
         tree = ent[1]
         tops = [t for t in tree.iter_subtrees_topdown() if t.data in CB]
         if not tops:
-            check.undecided.append((f"declaration type {sp}", "no type callback production in the parse tree (needs contract)"))
+            check.undecided.append((f"{ctx} type {sp}", "no type callback production in the parse tree (needs contract)"))
             continue
         top = tops[0]
 
         def setup(it):
             return {"t": tkit.mk_transformer(it)}
         ex = explore(loader, setup, lambda it, st, top=top: fold(it, st["t"], top))
-        check.absorb(ex, f"type {sp}")
+        check.absorb(ex, f"{ctx} type {sp}")
         if ex.paths:
             check.instances_generated += 1
         for p in ex.paths:
             if sp in TYPE_REJECTED:
-                check.ob("declaration-type#rejected", sp, p.ctx.pc, p.outcome == "raise" and issubclass(p.value.cls, (NotImplementedError, ValueError)),
+                check.ob(f"{fam}#rejected", sp, p.ctx.pc, p.outcome == "raise" and issubclass(p.value.cls, (NotImplementedError, ValueError)),
                          detail=f"{p.outcome} {p.value!r}")
                 continue
             ok = p.outcome == "return" and isinstance(p.value, Obj) and ir.vt_of(p.value) == TYPE_TABLE[sp]
-            check.ob("declaration-type#table: type spelling -> (signedness, width)", sp, p.ctx.pc, ok, detail=f"{p.outcome} {p.value!r}",
-                     replay=("c01.type", lambda mdl, sp=sp: {"spelling": sp}) if replay_on else None)
+            if ctx == "cast" and sp.startswith("const ") and p.outcome == "raise":
+                # a qualified type name in a cast is not implemented: it is refused with an exception (never given another type)
+                check.ob(f"{fam}#rejected", sp, p.ctx.pc, True, detail=f"raise {p.value!r}")
+                continue
+            check.ob(f"{fam}#table: type spelling -> (signedness, width)", sp, p.ctx.pc, ok, detail=f"{p.outcome} {p.value!r}",
+                     replay=("c01.type", lambda mdl, sp=sp, ctx=ctx: {"spelling": sp, "context": ctx}) if replay_on else None)
             if ok and sp.startswith("const "):
                 G = loader.load("rzilcompiler.Transformer.ValueType").globals["VTGroup"]
-                check.ob("declaration-type#const-is-recorded", sp, p.ctx.pc, bool(p.value.fields["group"] & G.CONST))
+                check.ob(f"{fam}#const-is-recorded", sp, p.ctx.pc, bool(p.value.fields["group"] & G.CONST))
 
 
 @replay.register("c01.type")
 def replay_type(a):
     c = irkit.real_compiler()
     sp = a["spelling"]
+    want = TYPE_TABLE[sp]
+    if a.get("context") == "cast":
+        # the cast's target type decides how a wider / narrower source is converted and how the result shifts right
+        src = "RssV" if want[1] < 64 else "RsV"
+        txt = c.compile_c_stmt("{ " + ("uint64_t" if want[1] == 64 else "uint32_t") + " y = ((" + sp + ") " + src + ") >> 1; }")
+        shift = re.search(r"(SHIFTRA|SHIFTR0)\(", txt)
+        casts = re.findall(r"CAST\((\d+), (MSB\([^()]*(?:\([^()]*\))?[^()]*\)|IL_FALSE), ", txt)
+        bad = not shift or (shift.group(1) == "SHIFTRA") != want[0] or not any(int(w) == want[1] for w, _ in casts)
+        return bad, f"{{ y = (({sp}) {src}) >> 1; }} emits {shift.group(1) if shift else None} after casts {casts}; the C type is {tname(want)}"
     txt = c.compile_c_stmt("{ " + sp + " x = 0; }")
     m = re.search(r'SETL\("x", (.*?)\);', txt)
-    want = TYPE_TABLE[sp]
     got = m.group(1) if m else None
     lit = re.search(r"(SN|UN)\((\d+),", got or "")
     bad = not lit or (lit.group(1) == "SN") != want[0] or int(lit.group(2)) != want[1]
